@@ -10,8 +10,8 @@
               constructor acceptance / rejection / maxima, default range, the two guards, single-model equivalence for solve_t
               and for solve over a range, failure containment);
    [code]     states what the code does where the property's text is silent (raise paths, which counters are already zeroed
-              at a KeyError, statuses only '.' / 'F', errors= merely handed down, offset ignored): true of the faithful model,
-              NOT a requirement — repairing finding twin|no-error-policy or offset (#8) will change these theorems with the model;
+              at a KeyError, statuses only '.' / 'F', errors= merely handed down): true of the faithful model,
+              NOT a requirement — repairing finding twin|no-error-policy will change these theorems with the model;
    [unfold]   a one-step unfolding of a definition kept as an interface lemma (no assurance beyond the correspondence K).
    `_refuted` theorems are witnesses of kept findings.  Only K / the oracle (no theorem): that the scripted / recorded oracles
    are what the Python objects do; copy()/deepcopy independence (C11's subject, observed only); histories (composition of the
@@ -69,13 +69,16 @@ Theorem C08_unknown_id_KeyError :
          (sev : sid -> hook num) (pre ebefore eafter post : lhook num)
          (sel : option (list sid)) (o : opts num) (t : Z) (s : lstate num)
          (before : list sid) (bad : sid) (after : list sid) (cur : list (list num)) (subs1 : list (sid * comp num)),
+    forall (s_call : lstate num),                      (* the state solve_t is called on *)
     min_iter o <= max_iter o ->                        (* both guards passed: not rejected with ValueError ... *)
-    linker_infeasible (c_desc (l_core s)) (length (status (c_st (l_core s)))) t = false ->     (* ... nor with IndexError *)
+    linker_infeasible (c_desc (l_core s_call)) (length (status (c_st (l_core s_call)))) t = false ->     (* ... nor with IndexError *)
+    (* s = the state after the offset seeding (s = s_call when offset = 0; Linker.seeded otherwise) *)
+    linker_seed num zero (sel_ids num sel s_call) o t s_call = (s, None) ->
     sel_ids num sel s = before ++ bad :: after ->
     find_sub num bad (l_subs s) = None ->
     get_check_values num zero (sel_ids num sel s) t s = inl cur ->
     zero_iters num before t (l_subs s) = (subs1, None) ->
-    linker_solve_t_M num sub absf ltb zero sev pre ebefore eafter post sel o t s
+    linker_solve_t_M num sub absf ltb zero sev pre ebefore eafter post sel o t s_call
     = (mkL (l_core s) subs1 (l_log s), LRaise (LExn KeyError)).
 Proof. exact unknown_id_KeyError_M. Qed.
 
@@ -87,15 +90,18 @@ Theorem C08_solve_t_quiet_spec :
          (sev : sid -> hook num) (pre ebefore eafter post : lhook num)
          (sel : option (list sid)) (o : opts num) (t : Z) (s : lstate num)
          (c0 : list (list num)) (subs1 : list (sid * comp num)) (s1 : lstate num),
+    forall (s_call : lstate num),                      (* the state solve_t is called on *)
     min_iter o <= max_iter o ->                        (* both guards passed: not rejected with ValueError ... *)
-    linker_infeasible (c_desc (l_core s)) (length (status (c_st (l_core s)))) t = false ->     (* ... nor with IndexError *)
+    linker_infeasible (c_desc (l_core s_call)) (length (status (c_st (l_core s_call)))) t = false ->     (* ... nor with IndexError *)
+    (* s = the state after the offset seeding (s = s_call when offset = 0; Linker.seeded otherwise) *)
+    linker_seed num zero (sel_ids num sel s_call) o t s_call = (s, None) ->
     let ids := sel_ids num sel s in
     let N := Z.to_nat (max_iter o) in
     get_check_values num zero ids t s = inl c0 ->
     zero_iters num ids t (l_subs s) = (subs1, None) ->
     run_hook num pre ids o t 0%nat (LPre t) (mkL (l_core s) subs1 (l_log s)) = (s1, None) ->
     quiet_upto num sev ebefore eafter ids o t s1 N ->
-    linker_solve_t_M num sub absf ltb zero sev pre ebefore eafter post sel o t s =
+    linker_solve_t_M num sub absf ltb zero sev pre ebefore eafter post sel o t s_call =
     lfinish num o ids t
       (match find_first (lconvk num sub absf ltb zero sev ebefore eafter ids o t c0 s1) 1 N with
        | Some k0 => match run_hook num post ids o t k0 (LPost t k0) (lst_after num sev ebefore eafter ids o t s1 k0) with
@@ -113,15 +119,18 @@ Theorem C08_linker_event_order :
          (sev : sid -> hook num) (pre ebefore eafter post : lhook num)
          (sel : option (list sid)) (o : opts num) (t : Z) (s : lstate num)
          (c0 : list (list num)) (subs1 : list (sid * comp num)) (s1 : lstate num),
+    forall (s_call : lstate num),                      (* the state solve_t is called on *)
     min_iter o <= max_iter o ->                        (* both guards passed: not rejected with ValueError ... *)
-    linker_infeasible (c_desc (l_core s)) (length (status (c_st (l_core s)))) t = false ->     (* ... nor with IndexError *)
+    linker_infeasible (c_desc (l_core s_call)) (length (status (c_st (l_core s_call)))) t = false ->     (* ... nor with IndexError *)
+    (* s = the state after the offset seeding (s = s_call when offset = 0; Linker.seeded otherwise) *)
+    linker_seed num zero (sel_ids num sel s_call) o t s_call = (s, None) ->
     let ids := sel_ids num sel s in
     let N := Z.to_nat (max_iter o) in
     get_check_values num zero ids t s = inl c0 ->
     zero_iters num ids t (l_subs s) = (subs1, None) ->
     run_hook num pre ids o t 0%nat (LPre t) (mkL (l_core s) subs1 (l_log s)) = (s1, None) ->
     quiet_upto num sev ebefore eafter ids o t s1 N ->
-    l_log (fst (linker_solve_t_M num sub absf ltb zero sev pre ebefore eafter post sel o t s)) =
+    l_log (fst (linker_solve_t_M num sub absf ltb zero sev pre ebefore eafter post sel o t s_call)) =
     l_log s ++ [LPre t] ++
     match find_first (lconvk num sub absf ltb zero sev ebefore eafter ids o t c0 s1) 1 N with
     | Some k0 => flat_map (iter_events ids t) (seq 1 k0) ++ [LPost t k0]
@@ -138,8 +147,11 @@ Theorem C08_linker_converges_at_least_k :
          (sev : sid -> hook num) (pre ebefore eafter post : lhook num)
          (sel : option (list sid)) (o : opts num) (t : Z) (p : nat) (s : lstate num)
          (subs1 : list (sid * comp num)) (s1 : lstate num) (k0 : nat),
+    forall (s_call : lstate num),                      (* the state solve_t is called on *)
     min_iter o <= max_iter o ->                        (* both guards passed: not rejected with ValueError ... *)
-    linker_infeasible (c_desc (l_core s)) (length (status (c_st (l_core s)))) t = false ->     (* ... nor with IndexError *)
+    linker_infeasible (c_desc (l_core s_call)) (length (status (c_st (l_core s_call)))) t = false ->     (* ... nor with IndexError *)
+    (* s = the state after the offset seeding (s = s_call when offset = 0; Linker.seeded otherwise) *)
+    linker_seed num zero (sel_ids num sel s_call) o t s_call = (s, None) ->
     let ids := sel_ids num sel s in
     let N := Z.to_nat (max_iter o) in
     let c0 := check_vec num zero ids p s in
@@ -150,7 +162,7 @@ Theorem C08_linker_converges_at_least_k :
     (forall k s', snd (run_hook num post ids o t k (LPost t k) s') = None) ->
     (1 <= k0 <= N)%nat -> lconvk num sub absf ltb zero sev ebefore eafter ids o t c0 s1 k0 = true ->
     (forall j, (1 <= j < k0)%nat -> lconvk num sub absf ltb zero sev ebefore eafter ids o t c0 s1 j = false) ->
-    let r := linker_solve_t_M num sub absf ltb zero sev pre ebefore eafter post sel o t s in
+    let r := linker_solve_t_M num sub absf ltb zero sev pre ebefore eafter post sel o t s_call in
     let s2 := fst (run_hook num post ids o t k0 (LPost t k0) (lst_after num sev ebefore eafter ids o t s1 k0)) in
     snd r = LRet true /\
     status (c_st (l_core (fst r))) = upd p Solved (status (c_st (l_core s))) /\
@@ -171,8 +183,11 @@ Theorem C08_linker_fails_when_no_k :
          (sev : sid -> hook num) (pre ebefore eafter post : lhook num)
          (sel : option (list sid)) (o : opts num) (t : Z) (p : nat) (s : lstate num)
          (subs1 : list (sid * comp num)) (s1 : lstate num),
+    forall (s_call : lstate num),                      (* the state solve_t is called on *)
     min_iter o <= max_iter o ->                        (* both guards passed: not rejected with ValueError ... *)
-    linker_infeasible (c_desc (l_core s)) (length (status (c_st (l_core s)))) t = false ->     (* ... nor with IndexError *)
+    linker_infeasible (c_desc (l_core s_call)) (length (status (c_st (l_core s_call)))) t = false ->     (* ... nor with IndexError *)
+    (* s = the state after the offset seeding (s = s_call when offset = 0; Linker.seeded otherwise) *)
+    linker_seed num zero (sel_ids num sel s_call) o t s_call = (s, None) ->
     let ids := sel_ids num sel s in
     let N := Z.to_nat (max_iter o) in
     let c0 := check_vec num zero ids p s in
@@ -181,7 +196,7 @@ Theorem C08_linker_fails_when_no_k :
     run_hook num pre ids o t 0%nat (LPre t) (mkL (l_core s) subs1 (l_log s)) = (s1, None) ->
     quiet_upto num sev ebefore eafter ids o t s1 N ->
     (forall j, (1 <= j <= N)%nat -> lconvk num sub absf ltb zero sev ebefore eafter ids o t c0 s1 j = false) ->
-    let r := linker_solve_t_M num sub absf ltb zero sev pre ebefore eafter post sel o t s in
+    let r := linker_solve_t_M num sub absf ltb zero sev pre ebefore eafter post sel o t s_call in
     let s2 := lst_after num sev ebefore eafter ids o t s1 N in
     snd r = (if fail_raise o then LRaise (LExn NonConvergenceError) else LRet false) /\
     status (c_st (l_core (fst r))) = upd p Failed (status (c_st (l_core s))) /\
@@ -203,8 +218,11 @@ Theorem C08_linker_status_stamped :
          (sev : sid -> hook num) (pre ebefore eafter post : lhook num)
          (sel : option (list sid)) (o : opts num) (t : Z) (p : nat) (s : lstate num)
          (subs1 : list (sid * comp num)) (s1 : lstate num),
+    forall (s_call : lstate num),                      (* the state solve_t is called on *)
     min_iter o <= max_iter o ->                        (* both guards passed: not rejected with ValueError ... *)
-    linker_infeasible (c_desc (l_core s)) (length (status (c_st (l_core s)))) t = false ->     (* ... nor with IndexError *)
+    linker_infeasible (c_desc (l_core s_call)) (length (status (c_st (l_core s_call)))) t = false ->     (* ... nor with IndexError *)
+    (* s = the state after the offset seeding (s = s_call when offset = 0; Linker.seeded otherwise) *)
+    linker_seed num zero (sel_ids num sel s_call) o t s_call = (s, None) ->
     let ids := sel_ids num sel s in
     let N := Z.to_nat (max_iter o) in
     wf num t p s ->
@@ -212,7 +230,7 @@ Theorem C08_linker_status_stamped :
     run_hook num pre ids o t 0%nat (LPre t) (mkL (l_core s) subs1 (l_log s)) = (s1, None) ->
     quiet_upto num sev ebefore eafter ids o t s1 N ->
     (forall k s', snd (run_hook num post ids o t k (LPost t k) s') = None) ->
-    let r := linker_solve_t_M num sub absf ltb zero sev pre ebefore eafter post sel o t s in
+    let r := linker_solve_t_M num sub absf ltb zero sev pre ebefore eafter post sel o t s_call in
     exists x k,
       nth_error (status (c_st (l_core (fst r)))) p = Some x /\
       nth_error (iters (c_st (l_core (fst r)))) p = Some (Z.of_nat k) /\
@@ -230,13 +248,16 @@ Theorem C08_linker_maxiter0 :
          (sev : sid -> hook num) (pre ebefore eafter post : lhook num)
          (sel : option (list sid)) (o : opts num) (t : Z) (p : nat) (s : lstate num)
          (subs1 : list (sid * comp num)) (s1 : lstate num),
+    forall (s_call : lstate num),                      (* the state solve_t is called on *)
     min_iter o <= max_iter o ->                        (* both guards passed: not rejected with ValueError ... *)
-    linker_infeasible (c_desc (l_core s)) (length (status (c_st (l_core s)))) t = false ->     (* ... nor with IndexError *)
+    linker_infeasible (c_desc (l_core s_call)) (length (status (c_st (l_core s_call)))) t = false ->     (* ... nor with IndexError *)
+    (* s = the state after the offset seeding (s = s_call when offset = 0; Linker.seeded otherwise) *)
+    linker_seed num zero (sel_ids num sel s_call) o t s_call = (s, None) ->
     let ids := sel_ids num sel s in
     max_iter o <= 0 -> wf num t p s ->
     zero_iters num ids t (l_subs s) = (subs1, None) ->
     run_hook num pre ids o t 0%nat (LPre t) (mkL (l_core s) subs1 (l_log s)) = (s1, None) ->
-    let r := linker_solve_t_M num sub absf ltb zero sev pre ebefore eafter post sel o t s in
+    let r := linker_solve_t_M num sub absf ltb zero sev pre ebefore eafter post sel o t s_call in
     snd r = (if fail_raise o then LRaise (LExn NonConvergenceError) else LRet false) /\
     status (c_st (l_core (fst r))) = upd p Failed (status (c_st (l_core s))) /\
     iters (c_st (l_core (fst r))) = upd p 0 (iters (c_st (l_core s))) /\
@@ -296,29 +317,69 @@ Theorem C08_linker_guard_is_feasibility :
   forall (d : mdesc) (n : nat) (t : Z) (p : nat), py_pos n t = Some p -> linker_infeasible d n t = negb (feasible d n p).
 Proof. exact linker_infeasible_pos. Qed.
 
-(* ---------------------------------------------------------------- offset (finding #8) *)
-(* [code / unfold] offset is never read (the record field is never projected): every value of it gives the same run *)
-Theorem C08_linker_offset_ignored :
+(* ---------------------------------------------------------------- offset (honoured since fix 6298cba) *)
+(* [clause] "a non-zero offset seeds period t from t+offset as it does for a single model".
+   Linker.seeded ids p q s: the endogenous rows of the linker's own core, and of every submodel listed in ids, take their
+   period-p value from period q (copy_endo); nothing else changes.  The call on s with an in-span offset and a known
+   selection IS the body — whose first act is get_check_values — on that seeded state, and equals the offset-free call on it *)
+Theorem C08_linker_offset_seeds :
   forall (num : Type) (sub : num -> num -> num) (absf : num -> num) (ltb : num -> num -> bool) (zero : num)
          (sev : sid -> hook num) (pre ebefore eafter post : lhook num)
-         (sel : option (list sid)) (o : opts num) (x : Z) (t : Z) (s : lstate num),
-    linker_solve_t_M num sub absf ltb zero sev pre ebefore eafter post sel (set_offset num o x) t s
-    = linker_solve_t_M num sub absf ltb zero sev pre ebefore eafter post sel o t s.
-Proof. exact linker_offset_ignored. Qed.
+         (sel : option (list sid)) (o : opts num) (t : Z) (s : lstate num) (p : nat),
+    min_iter o <= max_iter o ->
+    linker_infeasible (c_desc (l_core s)) (length (status (c_st (l_core s)))) t = false ->
+    offset o <> 0 ->
+    py_pos (length (status (c_st (l_core s)))) t = Some p ->
+    0 <= Z.of_nat p + offset o < Z.of_nat (length (status (c_st (l_core s)))) ->
+    (forall id, In id (sel_ids num sel s) -> find_sub num id (l_subs s) <> None) ->
+    let s0 := seeded num zero (sel_ids num sel s) p (Z.to_nat (Z.of_nat p + offset o)) s in
+    linker_solve_t_M num sub absf ltb zero sev pre ebefore eafter post sel o t s
+    = linker_solve_t_body num sub absf ltb zero sev pre ebefore eafter post sel o t s0 /\
+    linker_solve_t_M num sub absf ltb zero sev pre ebefore eafter post sel o t s
+    = linker_solve_t_M num sub absf ltb zero sev pre ebefore eafter post sel (set_offset num o 0) t s0.
+Proof. exact linker_offset_seeds. Qed.
 
-(* "a non-zero offset seeds period t from t+offset as it does for a single model": false of the faithful model *)
-Theorem C08_linker_offset_seeds_refuted :
-  exists ss hs sel (o : fopts) t s p q,
-    offset o <> 0 /\ py_pos (core_len s) t = Some p /\ Z.of_nat p + offset o = Z.of_nat q /\ (q < core_len s)%nat /\
-    lstate_eqb (fst (f_linker_solve_t ss hs sel o t s))
-               (fst (f_linker_solve_t ss hs sel (set_offset float o 0) t (seeded s p q))) = false.
-Proof. exact linker_offset_seeds_refuted. Qed.
+(* [clause] what is seeded: the core ... *)
+Theorem C08_seeded_core :
+  forall (num : Type) (zero : num) (ids : list sid) (p q : nat) (s : lstate num),
+    l_core (seeded num zero ids p q s)
+    = with_cvals num (l_core s) (copy_endo num zero (c_desc (l_core s)) (vals_of (c_st (l_core s))) p q) /\
+    l_log (seeded num zero ids p q s) = l_log s.
+Proof. exact seeded_core. Qed.
 
-Theorem C08_linker_offset_out_of_span_accepted :
-  exists ss hs sel (o : fopts) t s p,
-    py_pos (core_len s) t = Some p /\ Z.of_nat p + offset o < 0 /\
-    snd (f_linker_solve_t ss hs sel o t s) = LRet true.
-Proof. exact linker_offset_out_of_span_accepted. Qed.
+(* ... every selected submodel (endogenous rows only: copy_endo over its own `endo` list) ... *)
+Theorem C08_seeded_selected :
+  forall (num : Type) (zero : num) (ids : list sid) (p q : nat) (s : lstate num) (id : sid) (c : comp num),
+    NoDup ids -> In id ids -> find_sub num id (l_subs s) = Some c ->
+    find_sub num id (l_subs (seeded num zero ids p q s))
+    = Some (with_cvals num c (copy_endo num zero (c_desc c) (vals_of (c_st c)) p q)).
+Proof. exact seeded_selected. Qed.
+
+(* ... and NOT the unselected ones *)
+Theorem C08_seeded_unselected :
+  forall (num : Type) (zero : num) (ids : list sid) (p q : nat) (s : lstate num) (i : nat) (id : sid) (c : comp num),
+    nth_error (l_subs s) i = Some (id, c) -> selected ids id = false ->
+    nth_error (l_subs (seeded num zero ids p q s)) i = Some (id, c).
+Proof. exact seeded_unselected. Qed.
+
+(* [clause] an offset pointing outside the span: IndexError, nothing changed — as BaseModel.solve_t *)
+Theorem C08_linker_offset_out_of_span_rejected :
+  forall (num : Type) (sub : num -> num -> num) (absf : num -> num) (ltb : num -> num -> bool) (zero : num)
+         (sev : sid -> hook num) (pre ebefore eafter post : lhook num)
+         (sel : option (list sid)) (o : opts num) (t : Z) (s : lstate num) (p : nat),
+    min_iter o <= max_iter o ->
+    linker_infeasible (c_desc (l_core s)) (length (status (c_st (l_core s)))) t = false ->
+    offset o <> 0 ->
+    py_pos (length (status (c_st (l_core s)))) t = Some p ->
+    (Z.of_nat p + offset o < 0 \/ Z.of_nat (length (status (c_st (l_core s)))) <= Z.of_nat p + offset o) ->
+    linker_solve_t_M num sub absf ltb zero sev pre ebefore eafter post sel o t s = (s, LRaise (LExn IndexError)).
+Proof. exact linker_offset_out_of_span_rejected. Qed.
+
+(* [unfold] offset = 0: no seeding *)
+Theorem C08_linker_offset_zero_no_seeding :
+  forall (num : Type) (zero : num) (ids : list sid) (o : opts num) (t : Z) (s : lstate num),
+    offset o = 0 -> linker_seed num zero ids o t s = (s, None).
+Proof. exact linker_offset_zero_no_seeding. Qed.
 
 (* ---------------------------------------------------------------- solve(): guard + fold of solve_t   [unfold: the three
    theorems below are one-step unfoldings of linker_solve_M / solve_fold, kept as interface lemmas] *)
@@ -409,6 +470,18 @@ Theorem C08_ctor_accepts_iff :
     (forall ic, In ic rest -> span_elems (si_span (snd ic)) = span_elems (si_span b)).
 Proof. exact ctor_accepts_iff. Qed.
 
+(* [clause of fix f5ef8bd, outside C08's text] the constructor as called: a linker whose own name is one of its submodel ids is
+   refused with DuplicateNameError first of all; with any other name it is linker_ctor_M, which the theorems above describe *)
+Theorem C08_init_rejects_name_clash :
+  forall (name : sid) (subs : list (sid * subinfo)) (span : option pspan),
+    In name (map fst subs) -> linker_init_M name subs span = Raise DuplicateNameError.
+Proof. exact init_rejects_name_clash. Qed.
+
+Theorem C08_init_without_clash :
+  forall (name : sid) (subs : list (sid * subinfo)) (span : option pspan),
+    ~ In name (map fst subs) -> linker_init_M name subs span = linker_ctor_M subs span.
+Proof. exact init_without_clash. Qed.
+
 (* [unfold] *)
 Theorem C08_ctor_empty :
   forall span, linker_ctor_M [] span = Ret (match span with Some sp => sp | None => mkSpan SList [] end, 0, 0).
@@ -426,8 +499,11 @@ Theorem C08_solved_iff_all_moved_lt_tol :
          (sev : sid -> hook num) (pre ebefore eafter post : lhook num)
          (sel : option (list sid)) (o : opts num) (t : Z) (p : nat) (s : lstate num)
          (subs1 : list (sid * comp num)) (s1 : lstate num),
+    forall (s_call : lstate num),                      (* the state solve_t is called on *)
     min_iter o <= max_iter o ->                        (* both guards passed: not rejected with ValueError ... *)
-    linker_infeasible (c_desc (l_core s)) (length (status (c_st (l_core s)))) t = false ->     (* ... nor with IndexError *)
+    linker_infeasible (c_desc (l_core s_call)) (length (status (c_st (l_core s_call)))) t = false ->     (* ... nor with IndexError *)
+    (* s = the state after the offset seeding (s = s_call when offset = 0; Linker.seeded otherwise) *)
+    linker_seed num zero (sel_ids num sel s_call) o t s_call = (s, None) ->
     let ids := sel_ids num sel s in
     let N := Z.to_nat (max_iter o) in
     wf num t p s ->
@@ -442,7 +518,7 @@ Theorem C08_solved_iff_all_moved_lt_tol :
     let qualifies := fun k : nat =>
       (1 <= k <= N)%nat /\ min_iter o <= Z.of_nat k /\
       Forall2 (Forall2 (fun c q : num => ltb (absf (sub c q)) (tol o) = true)) (cv k) (cv (k - 1)%nat) in
-    let r := linker_solve_t_M num sub absf ltb zero sev pre ebefore eafter post sel o t s in
+    let r := linker_solve_t_M num sub absf ltb zero sev pre ebefore eafter post sel o t s_call in
     (snd r = LRet true <-> exists k, qualifies k) /\
     (forall k, qualifies k -> (forall j, (j < k)%nat -> ~ qualifies j) ->
        snd r = LRet true /\
@@ -704,7 +780,8 @@ Theorem C08_single_model_linker_eq_model :
     (* what __init__ establishes for a linker over this one model: its lags / leads are the model's, same span length *)
     lags cd = lags d -> leads cd = leads d -> length cs = length ms ->
     (min_iter o <= max_iter o -> 0 <= max_iter o) ->
-    offset o = 0 ->                                          (* ignored by the linker: finding #8 *)
+    offset o = 0 ->                                          (* with an offset: C08_linker_offset_seeds and Solver.offset_seeds
+                                                                reduce both sides to this case on the seeded state *)
     (forall i, (1 <= i <= Z.to_nat (max_iter o))%nat ->      (* no evaluation raises (the model would wrap it in SolutionError) *)
        snd (evk num ev o t i (st_after num ev o t mv (i - 1))) = None) ->
     (forall i, (i <= Z.to_nat (max_iter o))%nat ->           (* finite regime (the linker has no error policy: kept finding) *)
@@ -774,9 +851,14 @@ Print Assumptions C08_linker_solve_t_infeasible_position_rejected.
 Print Assumptions C08_linker_guard_is_feasibility.
 Print Assumptions C08_guard_passed_fits_every_submodel.
 Print Assumptions lx_guard_hypotheses_satisfiable.
-Print Assumptions C08_linker_offset_ignored.
-Print Assumptions C08_linker_offset_seeds_refuted.
-Print Assumptions C08_linker_offset_out_of_span_accepted.
+Print Assumptions lx_seed_hypotheses_satisfiable.
+Print Assumptions lx_init_name_clash.
+Print Assumptions C08_linker_offset_seeds.
+Print Assumptions C08_seeded_core.
+Print Assumptions C08_seeded_selected.
+Print Assumptions C08_seeded_unselected.
+Print Assumptions C08_linker_offset_out_of_span_rejected.
+Print Assumptions C08_linker_offset_zero_no_seeding.
 Print Assumptions C08_linker_solve_min_gt_max.
 Print Assumptions C08_linker_solve_cons.
 Print Assumptions C08_linker_solve_nil.
@@ -788,6 +870,8 @@ Print Assumptions C08_ctor_accepts_identical_spans_any_kind.
 Print Assumptions C08_ctor_accepts_iff.
 Print Assumptions C08_lags_leads_are_maxima.
 Print Assumptions C08_ctor_empty.
+Print Assumptions C08_init_rejects_name_clash.
+Print Assumptions C08_init_without_clash.
 Print Assumptions C08_single_model_linker_eq_model.
 Print Assumptions C08_single_model_linker_solve_eq_model_solve.
 Print Assumptions C08_single_model_linker_eq_model_refuted.
